@@ -62,10 +62,15 @@ TNext ==
                 same  == C16_Same(blk, line.canon, first, fin, cuts2[w], cur[Other(w)], cuts2[Other(w)])
                 fails == chk.fail \cup (IF same THEN {} ELSE {"C16_Same"}) \cup
                          (IF line.ret \in {"ok", "err"} THEN {} ELSE {"C16_NoPanic"})
-                full  == TRun(line.cfg, blk, line.canon, sts[1])
+                full  == TRun(line.cfg, blk, IF line.mid >= 1 THEN line.from ELSE line.canon, sts[1])
                 obs   == SubSeq(sts, 2, Len(sts))
-                conf  == /\ \/ obs = full /\ (line.ret = "ok" \/ line.fault)          \* (commit-then-error is a fault too)
-                            \/ line.fault /\ line.ret = "err" /\ Len(obs) < Len(full) /\ obs = SubSeq(full, 1, Len(obs))
+                lo    == IF sts[1].synced.has THEN sts[1].synced.num + 1 ELSE first
+                midOK == /\ line.mid >= 1 /\ line.ret = "ok" /\ Len(obs) = 1
+                         /\ \E ord \in {"rt", "tr"} :
+                              obs[1] = TStoreMid(line.cfg, blk, line.from, line.canon, sts[1], lo, blk[line.from].num, line.mid, ord)
+                conf  == /\ \/ midOK
+                            \/ line.mid < 1 /\ obs = full /\ (line.ret = "ok" \/ line.fault)          \* (commit-then-error is a fault too)
+                            \/ line.mid < 1 /\ line.fault /\ line.ret = "err" /\ Len(obs) < Len(full) /\ obs = SubSeq(full, 1, Len(obs))
                          /\ sts[1] = cur[w]          \* the call started where the previous one ended
             IN /\ viol' = viol \cup {<<l, m>> : m \in fails}
                /\ drift' = drift \cup (IF conf THEN {} ELSE {l})
